@@ -45,17 +45,17 @@ HasAC(prod)  == prod \in {"ulc", "ntag", "ev1"}
 HasCfg(prod) == prod \in {"ntag", "ev1"}
 
 \* page numbers of the page classes of one representative product per family (real numbers come with a trace)
-Classes == {"slock", "cc", "u4", "u5", "dlock", "cfg0", "cfg1", "pwd", "pack", "a0", "a1", "k1", "k2", "k3", "k4"}
+Classes == {"slock", "cc", "u4", "u5", "tend", "dlock", "cfg0", "cfg1", "pwd", "pack", "a0", "a1", "k1", "k2", "k3", "k4"}
 PgTable(prod) ==
-    CASE prod = "ulc"  -> [c \in Classes |-> CASE c = "slock" -> 2 [] c = "cc" -> 3 [] c = "u4" -> 4 [] c = "u5" -> 5
+    CASE prod = "ulc"  -> [c \in Classes |-> CASE c = "slock" -> 2 [] c = "cc" -> 3 [] c = "u4" -> 4 [] c = "u5" -> 5 [] c = "tend" -> 5
                               [] c = "dlock" -> 40 [] c = "a0" -> 42 [] c = "a1" -> 43 [] c = "k1" -> 44 [] c = "k2" -> 45
                               [] c = "k3" -> 46 [] c = "k4" -> 47 [] OTHER -> 0]
-      [] prod = "ntag" -> [c \in Classes |-> CASE c = "slock" -> 2 [] c = "cc" -> 3 [] c = "u4" -> 4 [] c = "u5" -> 5
+      [] prod = "ntag" -> [c \in Classes |-> CASE c = "slock" -> 2 [] c = "cc" -> 3 [] c = "u4" -> 4 [] c = "u5" -> 5 [] c = "tend" -> 6
                               [] c = "dlock" -> 40 [] c = "cfg0" -> 41 [] c = "cfg1" -> 42 [] c = "pwd" -> 43
                               [] c = "pack" -> 44 [] OTHER -> 0]
-      [] prod = "ev1"  -> [c \in Classes |-> CASE c = "slock" -> 2 [] c = "cc" -> 3 [] c = "u4" -> 4 [] c = "u5" -> 5
+      [] prod = "ev1"  -> [c \in Classes |-> CASE c = "slock" -> 2 [] c = "cc" -> 3 [] c = "u4" -> 4 [] c = "u5" -> 5 [] c = "tend" -> 5
                               [] c = "cfg0" -> 16 [] c = "cfg1" -> 17 [] c = "pwd" -> 18 [] c = "pack" -> 19 [] OTHER -> 0]
-      [] OTHER         -> [c \in Classes |-> CASE c = "slock" -> 2 [] c = "cc" -> 3 [] c = "u4" -> 4 [] c = "u5" -> 5
+      [] OTHER         -> [c \in Classes |-> CASE c = "slock" -> 2 [] c = "cc" -> 3 [] c = "u4" -> 4 [] c = "u5" -> 5 [] c = "tend" -> 6
                               [] c = "dlock" -> 40 [] OTHER -> 0]
 NoAuth0(prod) == IF prod = "ulc" THEN 48 ELSE 255            \* AUTH0 value that disables the protection
 Max(a, b) == IF a > b THEN a ELSE b
@@ -131,7 +131,9 @@ ReadNak(t) == IF ~Alive(t) THEN t ELSE IF t.nakb THEN Activate(t) ELSE Nak(t)
 
 \* what Type2Tag.NDEF + the vendor _read_capability_data override make of the tag (tt2_nxp.py:53-63, 323-332)
 CcReadable(t) == ReadOk(t, "cc")
-TlvReadable(t) == ReadOk(t, "u4")
+\* the TLV area up to the end of the NDEF message TLV (a READ that starts on a readable page rolls over behind
+\* the last readable one: no NAK, but the bytes are not those of the message)
+TlvReadable(t) == ReadOk(t, "tend")
 NdefView(t, r) ==
     IF ~Alive(t) \/ ~CcReadable(t) \/ ~t.fmt \/ ~TlvReadable(t) \/ t.tlv # "ok" THEN "none"
     ELSE LET rd0 == "b7" \notin t.cc
@@ -141,7 +143,7 @@ NdefView(t, r) ==
              wr1 == wr0 \/ (over /\ "b3" \in t.cc /\ "lo" \notin t.cc /\ ~t.slock)   \* low nibble = 8, lock bytes 00 00
          IN IF rd1 THEN (IF wr1 THEN "rw" ELSE "r") ELSE (IF wr1 THEN "w" ELSE "-")
 \* a READ of the TLV area that the tag answers with NAK re-activates it (Type2Tag.read senses again)
-NdefNaks(t) == Alive(t) /\ CcReadable(t) /\ t.fmt /\ ~TlvReadable(t)
+NdefNaks(t) == Alive(t) /\ CcReadable(t) /\ t.fmt /\ ~ReadOk(t, "u4")
 
 \* ---- control ---------------------------------------------------------------------------------------
 Goto(p) == pc' = p /\ resp' = NoResp /\ orig' = NoResp /\ UNCHANGED <<last, nops>>
